@@ -898,7 +898,8 @@ def format_symbolic_duration(symbolic_dur):
 
 
 def symbolic_to_numeric_duration(symbolic_dur, divs):
-    numdur = divs * LABEL_DURS[symbolic_dur.get("type", None)]
+    # float() first: int8 / uint8 divs times 16 (long), 8, 4 wrap around
+    numdur = float(divs) * LABEL_DURS[symbolic_dur.get("type", None)]
     numdur *= DOT_MULTIPLIERS[symbolic_dur.get("dots", 0)]
     numdur *= (symbolic_dur.get("normal_notes") or 1) / (
         symbolic_dur.get("actual_notes") or 1
